@@ -309,7 +309,7 @@ def needs_gap(prev: str, nxt: str) -> bool:
     return False
 
 
-COMMENT_WORDS = ["c", "note", "x y", "todo: fix", "a | b", "'q'", "é", "1>x", "/* in */", ";"]
+COMMENT_WORDS = ["c", "note", "x y", "todo: fix", "a | b", "'q'", "é", "1>x", "/* in */", ";", "𝔘𝔘 wide"]
 
 
 def random_gap(rng: random.Random, prev: str, nxt: str, toplevel: bool, p_comment=0.25):
